@@ -486,8 +486,10 @@ func calculateChanges(oldVals, newVals map[string]string) (add, remove []KV) {
 		}
 	}
 
+	// a key whose value changed is reported in add only: listeners re-associate it in OnAdd,
+	// and because additions are applied before removals, removing it here would drop the new value
 	for k, v := range oldVals {
-		if val, ok := newVals[k]; !ok || v != val {
+		if _, ok := newVals[k]; !ok {
 			remove = append(remove, KV{
 				Key: k,
 				Val: v,
